@@ -383,6 +383,34 @@ M1_EXEMPT = {
 }
 
 
+def _m1_exempt(fx, f, ptr_text, _cache={}):
+    """reason text if the unguarded access is one of the argued exceptions.  The two-byte prefix compare of
+    is_double_dot_path_segment may be a lambda inside it or a helper next to it: what matters is that the function reads
+    `<parameter>.data()` and that is_double_dot_path_segment -- which has established size in {2,4,6} -- is its only caller."""
+    key = (f["qname"], ptr_text)
+    if key in M1_EXEMPT:
+        return M1_EXEMPT[key]
+    if not ptr_text.endswith(".data()"):
+        return None
+    pname = ptr_text[:-len(".data()")]
+    if pname not in [p_["name"] for p_ in f.get("params", [])]:
+        return None
+    ck = id(fx)
+    if ck not in _cache:
+        callers = {}
+        for g in fx.functions:
+            if not C.first_party(g) or not g.get("blocks"):
+                continue
+            for n, s_, b_ in C.all_nodes(g):
+                if n.get("k") == "call" and n.get("callee"):
+                    callers.setdefault(n["callee"], set()).add(g["qname"] if not g.get("lambda") else g["key"])
+        _cache[ck] = callers
+    cs = _cache[ck].get(f["key"], set())
+    if cs and all("ada::unicode::is_double_dot_path_segment" in c for c in cs):
+        return M1_EXEMPT[(_DD, "a.data()")] + " (reached only from is_double_dot_path_segment)"
+    return None
+
+
 def check_blocks(ctx, fx, cfg):
     nblk = nstack = 0
     unclassified = []
@@ -494,7 +522,7 @@ def check_blocks(ctx, fx, cfg):
                         want = rn(base["recv"]) + ".size()"
                         if implies_le(facts, ("-" + want,), nel + ic):
                             S = want
-                    elif (f["qname"], rn(ptr)) not in M1_EXEMPT:
+                    elif _m1_exempt(fx, f, rn(ptr)) is None:
                         unclassified.append((key, where))
                         continue
                 else:
@@ -502,9 +530,9 @@ def check_blocks(ctx, fx, cfg):
                     if S is not None and base.get("k") == "call" and base.get("name") == "data" and base.get("recv") is not None \
                             and S != rn(base["recv"]) + ".size()":
                         S = None
-                if S is None and (f["qname"], rn(ptr)) in M1_EXEMPT:
+                if S is None and _m1_exempt(fx, f, rn(ptr)) is not None:
                     nblk += 1
-                    ctx.ok("M1", key, "exempt: " + M1_EXEMPT[(f["qname"], rn(ptr))], where=where)
+                    ctx.ok("M1", key, "exempt: " + _m1_exempt(fx, f, rn(ptr)), where=where)
                     continue
                 nblk += 1
                 ctx.check("M1", key, S is not None, "offset %s%+d + %d <= %s by the dominating guard" % ("".join(its) or "0", ic, nel, S),
